@@ -80,14 +80,14 @@ CHECKS.update({
           "deep copy at spawn: the task's view reflects only its own mutation, the spawner's view only its own; channels are shared.",
           "Tasks spawned at top level; nesting depth 2.", "DESIGN.md §3 C08", "model_checking",
           "enumeration of capture shapes x mutation patterns, each explored under all embedder schedules with a bounded number of deviations on the real runtime, against a copy-at-spawn model"),
- "C17": U("all 19x19 ordered pairs over a structured string set (empty, prefix/extension, first difference at first/middle/last byte of 40 bytes, NUL, multi-byte UTF-8), each evaluating `..` and the six comparisons, each followed by a different operation on a fixed prefix-related probe pair, in 3 (quick) / 5 (thorough) operand forms under uniform budgets 1,2,3,7,64,MAX; all embedder executions with <= 1 deviation; a collection cycle started at EVERY instruction boundary and completed 0,1 (quick) / 0,1,2,5,end (thorough) steps later;",
+ "C17": U("all 22x22 ordered pairs over a structured string set (empty, prefix/extension, first difference at first/middle/last byte of 40 bytes, two opposite differences within one 8-byte stretch, NUL, multi-byte UTF-8), each evaluating `..` and the six comparisons, each followed by a different operation on a fixed prefix-related probe pair, in 3 (quick) / 5 (thorough) operand forms under uniform budgets 1,2,3,7,64,MAX; all embedder executions with <= 1 deviation; a collection cycle started at EVERY instruction boundary and completed 0,1 (quick) / 0,1,2,5,end (thorough) steps later;",
           "Rust byte-wise concatenation and lexicographic order; no reclaimed object reachable or touched in any state.",
           "Structured set instead of random strings; the full mutator x collector interleaving search for string temporaries is part of C06.", "DESIGN.md §3 C17", "model_checking",
           "exhaustive pairs x operand forms under enumerated budget schedules (uniform and deviation-bounded) and enumerated collection windows driven through the schedulable-collector hooks"),
  "C03": U("all programs `context^k x payload` (k <= 2 quick / 3 thorough; contexts fn, member fn, lambda, task, while, for, match arm, if, operand block, while-condition block, for-iterable block, if-condition block, match-scrutinee block; 29 payload kinds incl. break/continue/return/?/!, assignments to outer variables/fields/elements/user-Index, element and field assignments whose index expression binds a name, tasks, lambdas, scrutinee-only uses, user Num operators), each compiled standalone;",
           "check() gives diagnostics, or check() is Ok and compile_bytecode() is Ok and the program runs under budget 1 without a VM fault; a sanity guard requires the no-op payload to be accepted in every context.",
           "Bounded nesting depth; four constructs the checker lets through but the translator does not implement are open known findings keyed by payload kind + failure class (known_findings.json).", "DESIGN.md §3 C03"),
- "C12": U("all arm lists up to length 2-3 (quick) / 2-4 (thorough) over 5-58 patterns for each of 21 scrutinee types (bool, void, int/float/string literals, tuples, structs incl. void field and generic, enums with positional/named/void payloads, option, nested option, result, option<void>, result<void, bool>, a tuple containing a struct, a struct containing a struct), plus cover lists, matches nested in arm bodies / scrutinees / task blocks;",
+ "C12": U("all arm lists up to length 2-3 (quick) / 2-4 (thorough) over 5-58 patterns for each of 24 scrutinee types (bool, void, int/float/string literals incl. several spellings of one float value, tuples, structs incl. void field, three fields and generic, enums with positional/named/void payloads, option, nested option, result, option<void>, result<void, bool>, a tuple containing a struct, a struct containing a struct, a user generic whose parameter sits two constructors deep), plus cover lists, matches nested in arm bodies / scrutinees / task blocks;",
           "brute-force matcher over the finite value domain: an accepted match has an arm for every value (also at run time, every value fed to the compiled match); a match reported non-exhaustive has an unmatched value and every listed witness covers one.",
           "Bounded pattern depth 2 and arm-list length; verdicts are read per match from check_lsp diagnostics by byte range (cross-checked on every 40th case standalone).", "DESIGN.md §3 C12-C14", "model_checking",
           "exhaustive enumeration of (type, arm list) states and (arm list, value) transitions; the real checker's verdict and the compiled match compared with a brute-force matcher on every one"),
